@@ -2,6 +2,7 @@ SPECIFICATION Spec
 CONSTANTS
   MaxObj = 4
   MaxHandles = 3
+  ReleaseFirst = FALSE
   Cascade = TRUE
-INVARIANTS CountsExact ChildrenLive QuiescentIsEmpty
+INVARIANTS CountsExact ChildrenLive HandlesLive QuiescentIsEmpty
 CHECK_DEADLOCK FALSE
